@@ -630,3 +630,28 @@ package account
 //@   requires adb != nil
 //@   loop 0: invariant true
 //@   loop 0: commutes on ghost(mtrie)
+
+// ---------------------------------------------------------------------------------------------
+// Replacing an NFT-set definition (C03, C04): the journal entry pairs the PREVIOUS hash with the PREVIOUS bytes,
+// both read before the new definition is installed. An entry that pairs the new hash with the old bytes makes
+// the undo mark old bytes dirty under the new hash, and the next commit overwrites the blob stored under that
+// hash - a blob older roots may reference.
+//@ func accountObject.nftSetDefinition
+//@   option trusted
+//@   requires ao != nil
+//@   modifies ao.nftSet, ao.dbErr
+
+//@ func accountObject.setNFTSetDefinition
+//@   option trusted
+//@   requires ao != nil
+//@   ensures bytes(ao.data.NFTSetDefinitionHash) == @tohash32(bytes(hash)) && ao.nftSet == code && ao.dirtyNFTSet
+//@   modifies ao.data.kind, ao.nftSet, ao.data.NFTSetDefinitionHash, ao.dirtyNFTSet, ao.onDirty, heap("map[common.Address]struct{}")
+
+//@ func accountObject.SetNFTSetDefinition
+//@   property C03 C04
+//@   requires ao != nil && ao.db != nil
+//@   ensures [journal]  len(ao.db.transitions) == old(len(ao.db.transitions)) + 1 && istype(ao.db.transitions[len(ao.db.transitions)-1], nftSetDefinitionChange)
+//@   ensures [prevhash] unbox(ao.db.transitions[len(ao.db.transitions)-1], nftSetDefinitionChange).prevhash == old(ao.data.NFTSetDefinitionHash)
+//@   ensures [account]  unbox(ao.db.transitions[len(ao.db.transitions)-1], nftSetDefinitionChange).account != nil && *unbox(ao.db.transitions[len(ao.db.transitions)-1], nftSetDefinitionChange).account == ao.address
+//@   ensures [prefix]   forall i int :: 0 <= i && i < old(len(ao.db.transitions)) ==> ao.db.transitions[i] == old(ao.db.transitions[i])
+//@   ensures [value]    bytes(ao.data.NFTSetDefinitionHash) == @tohash32(bytes(hash)) && ao.nftSet == code
